@@ -30,6 +30,10 @@ const LocalAddr = "dL"
 type Writer struct {
 	Name string
 	msgs [][]byte
+	// OnWrite, when set, is called with every message after it was recorded, on the writing goroutine: a peer
+	// that reacts while the write call is still in progress (a loop-back connection inside one process, or
+	// simply a fast peer) is modelled by delivering its answer from here or by releasing another thread.
+	OnWrite func(b []byte)
 }
 
 func (w *Writer) WriteShipMessageWithPayload(b []byte) {
@@ -37,7 +41,13 @@ func (w *Writer) WriteShipMessageWithPayload(b []byte) {
 		rt.IO(unsafe.Pointer(w))
 	}
 	w.record(b)
+	if f := w.onWrite(); f != nil && !rt.Aborting() {
+		f(b)
+	}
 }
+
+//go:norace
+func (w *Writer) onWrite() func(b []byte) { return w.OnWrite }
 
 //go:norace
 func (w *Writer) record(b []byte) { w.msgs = append(w.msgs, b) }
